@@ -180,6 +180,15 @@ def run_case(case, ctx):
     if rep == "sparse":
         nnz = int(np.count_nonzero(X))
         D = gen.mk_sptensor(ttb, X if not store else X.astype(store), gen.stored_order(rng, nnz, "shuffled"), dtype=(np.dtype(store) if store else None))
+        if (gen.pick(case) // 4) % 3 == 0 and nnz < X.size:
+            # a coordinate list that also stores some of the zero counts explicitly (the constructor keeps them): the same data
+            zpos = np.argwhere(X == 0)
+            zpos = zpos[rng.permutation(len(zpos))[: max(1, len(zpos) // 2)]]
+            subs_ = np.vstack((np.asarray(D.subs).reshape(-1, N), zpos)) if nnz else zpos
+            vals_ = np.vstack((np.asarray(D.vals).reshape(-1, 1), np.zeros((len(zpos), 1), dtype=np.asarray(D.vals).dtype if nnz else float)))
+            perm_ = rng.permutation(len(subs_))
+            D = ttb.sptensor(subs_[perm_], vals_[perm_], shape)
+            ctx.feat(stored_zeros=True)
     ctx.feat(store=str(store), good_guess=bool(case.get("good_guess")), overfit=bool(case.get("Rtrue")), restart=bool(case.get("restart")))
     ddig = state_digest(D)
     ctx.feat(alg=alg, rep=rep, zero_row=case["zero_row"], empty_slice=case["empty_slice"], R=R, N=N, precompinds=case["precompinds"],
